@@ -1,4 +1,4 @@
-import DnsVerif.Lemmas.CompleteRR
+import DnsVerif.Lemmas.CompleteBounds
 
 /-! # Decoder completeness, part 5: whole messages and the public entry points (C04)
 
@@ -70,9 +70,9 @@ theorem MsgAt.functional {b : Bytes} {bk : Bool} {m₁ m₂ : Msg} (h1 : MsgAt b
 /-! ## Element entry points -/
 
 theorem decodeRR_complete {b : Bytes} {bk : Bool} {rr : RR} {e : Nat} (h : RRAt b bk 0 rr e)
-    (he : e ≤ b.length) (hB : b.length < 2 ^ 63) :
+    (hB : b.length < 2 ^ 63) :
     ∃ c, decodeRR b = .ok (rr, { buf := b, off := e, lim := b.length, cost := c }) :=
-  decRR_complete (c := 0) h he (Nat.le_refl _) hB
+  decRR_complete (c := 0) h (RRAt.end_le h) (Nat.le_refl _) hB
 
 theorem decodeQuestion_complete {b : Bytes} {bk : Bool} {q : Question} {e : Nat} (h : QuestionAt b bk 0 q e)
     (hB : b.length < 2 ^ 63) :
@@ -151,5 +151,226 @@ theorem MsgAt.weaken {b : Bytes} {bk : Bool} {m : Msg} (h : MsgAt b bk m) : MsgA
   obtain ⟨h12, hmax, hid, hfl, hq, han, hns, har, hb, e1, e2, e3, hqs, hans, hnss, hars⟩ := h
   exact ⟨h12, hmax, hid, hfl, hq, han, hns, har, hb, e1, e2, e3, QuestionsAt.weaken hqs, RRsAt.weaken hans,
     RRsAt.weaken hnss, RRsAt.weaken hars⟩
+
+/-! ## Non-vacuity: the hypotheses of the main theorems hold on concrete, non-trivial buffers -/
+
+section Examples
+
+local macro "bdec" : tactic => `(tactic| (unfold BytesAt; decide +kernel))
+
+/-- a response: header, question `a. A IN`, answer `<ptr to 12> A IN 60 10.0.0.1` -/
+private def exMsgBuf : Bytes :=
+  [0x12, 0x34, 0x81, 0x80, 0, 1, 0, 1, 0, 0, 0, 0,
+   1, 97, 0, 0, 1, 0, 1,
+   0xC0, 0x0C, 0, 1, 0, 1, 0, 0, 0, 60, 0, 4, 10, 0, 0, 1]
+
+private def exMsg : Msg :=
+  { id := 0x1234,
+    flags := { qr := true, opcode := 0, aa := false, tc := false, rd := true, ra := true, ad := false,
+               cd := false, rcode := 0 },
+    qs := [{ name := [[97]], qtype := 1, qclass := 1 }],
+    an := [{ name := [[97]], ty := 1, cls := 1, ttl := 60, rd := .fields [.bytes [10, 0, 0, 1]] }],
+    ns := [], ar := [] }
+
+private theorem exQName : NameRefAt exMsgBuf true 12 [[97]] 15 :=
+  ⟨0, .label (len := 1) (by decide) (by decide) (by decide) (by decide) (by decide) (.root (by decide)),
+    by decide, by decide, by decide⟩
+
+private theorem exAName : NameRefAt exMsgBuf true 19 [[97]] 21 :=
+  ⟨1, .ptr (a := 0xC0) (b := 0x0C) (by decide) (by decide) (by decide) (by decide)
+    (.label (len := 1) (by decide) (by decide) (by decide) (by decide) (by decide) (.root (by decide))),
+    by decide, by decide, by decide⟩
+
+private theorem exA : RRAt exMsgBuf true 19
+    { name := [[97]], ty := 1, cls := 1, ttl := 60, rd := .fields [.bytes [10, 0, 0, 1]] } 35 :=
+  .normal (e := 21) (rdlen := 4) (by decide) exAName (by decide) (by decide) (by decide) (by decide)
+    ⟨by decide, fun _ => rfl⟩ (by bdec)
+    (.regular rfl (.cons (.oct (k := 1) (c := 4) rfl (by bdec) (by decide)) .nil))
+
+private theorem exMsgAt : MsgAt exMsgBuf true exMsg :=
+  ⟨by decide, by decide, by decide, ⟨by decide, by decide, by decide⟩, by decide, by decide, by decide, by decide,
+    by bdec, 19, 35, 35,
+    .cons ⟨15, exQName, by decide, by decide, by bdec, rfl, by decide⟩ .nil,
+    .cons exA .nil, .nil, .nil⟩
+
+example : ∃ c, decodeDns exMsgBuf = .ok (exMsg, { buf := exMsgBuf, off := 35, lim := 35, cost := c }) :=
+  decodeDns_complete exMsgAt
+
+example : MsgAt exMsgBuf false exMsg := MsgAt.weaken exMsgAt
+
+private theorem rootAt0 (b : Bytes) (bk : Bool) (h : b[0]? = some 0) : NameRefAt b bk 0 [] 1 :=
+  ⟨0, .root h, Nat.zero_le _, by simp, by simp⟩
+
+/-- C04 boundary: an empty NULL RDATA -/
+private def exNull : Bytes := [0, 0, 10, 0, 1, 0, 0, 0, 60, 0, 0]
+
+private theorem exNullAt : RRAt exNull true 0
+    { name := [], ty := 10, cls := 1, ttl := 60, rd := .fields [.bytes []] } 11 :=
+  .normal (e := 1) (rdlen := 0) (by decide) (rootAt0 _ _ (by decide)) (by decide) (by decide) (by decide) (by decide)
+    ⟨by decide, fun h => by simp at h⟩ (by bdec)
+    (.regular rfl (.cons (.rest (b := []) (bytesAt_nil _ _) rfl (by simp)) .nil))
+
+example : ∃ c, decodeRR exNull = .ok ({ name := [], ty := 10, cls := 1, ttl := 60, rd := .fields [.bytes []] },
+    { buf := exNull, off := 11, lim := 11, cost := c }) :=
+  decodeRR_complete exNullAt (by simp [exNull])
+
+private def ck8 : Bytes := [1, 2, 3, 4, 5, 6, 7, 8]
+
+/-- C04 boundaries: OPT (DO bit set) with a 40-octet cookie, zero-length padding, a /0 ECS with no
+address octets -/
+private def exOpt : Bytes :=
+  [0, 0, 41, 0x10, 0, 0, 0, 0x80, 0, 0, 56] ++ ([0, 10, 0, 40] ++ ck8 ++ List.replicate 32 9) ++ [0, 12, 0, 0] ++
+    [0, 8, 0, 4, 0, 1, 0, 0]
+
+private def exOptVal : RR :=
+  { name := [], ty := 41, cls := 0, ttl := 0,
+    rd := .opt 4096 0 0 true [.cookie ck8 (some (List.replicate 32 9)), .padding 0, .ecs 1 0 0 [0, 0, 0, 0]] }
+
+set_option maxRecDepth 8192 in
+private theorem exOptAt : RRAt exOpt true 0 exOptVal 67 :=
+  .opt (e := 1) (rdlen := 56) (rootAt0 _ _ (by decide)) (by decide) (by decide) (by decide) (by decide) (by bdec)
+    (.opt rfl
+      (.cons (.cookie (by decide) (by intro s hs; cases hs; simp) (by bdec)) (by decide)
+        (.cons (.padding (by decide) (by bdec)) (by decide)
+          (.cons (.ecs (len := 4) (by bdec) (by decide) (by decide) (by bdec) (by decide) (by decide)
+              ⟨.inl rfl, rfl, by decide, by bdec, by decide, by decide,
+                ((checkPrefix_ok_iff _ _).mp rfl).2⟩) (by decide) .nil))))
+
+example : ∃ c, decodeRR exOpt = .ok (exOptVal, { buf := exOpt, off := 67, lim := 67, cost := c }) :=
+  decodeRR_complete exOptAt (by decide +kernel)
+
+/-- SVCB with the parameters in the wire order port (3), alpn (1): the value is sorted by key -/
+private def exSvcb : Bytes :=
+  [0, 0, 64, 0, 1, 0, 0, 0, 60, 0, 16, 0, 1, 0, 0, 3, 0, 2, 1, 187, 0, 1, 0, 3, 2, 104, 50]
+
+private def exSvcbVal : RR :=
+  { name := [], ty := 64, cls := 1, ttl := 60, rd := .svcb 1 [] [.alpn [[104, 50]], .port 443] }
+
+private theorem exSvcbAt : RRAt exSvcb true 0 exSvcbVal 27 :=
+  .normal (e := 1) (rdlen := 16) (by decide) (rootAt0 _ _ (by decide)) (by decide) (by decide) (by decide) (by decide)
+    ⟨by decide, rfl⟩ (by bdec)
+    (.svcbService (https := false) (e := 14) (wire := [.port 443, .alpn [[104, 50]]]) rfl (by decide) (by decide)
+      (by bdec) ⟨0, .root (by decide), by decide, by simp, by simp⟩ (by decide)
+      (.cons (.mk (len := 2) (by decide) (by bdec) (.port (by decide) (by bdec) rfl)) (by decide)
+        (.cons (.mk (len := 3) (by decide) (by bdec)
+            (.alpn (.cons (e := 27) (by decide) ⟨by decide, by decide, by bdec, by decide⟩ (by decide) (by decide)
+              .nil)))
+          (by decide) .nil))
+      (List.Perm.swap _ _ []) ⟨by decide, trivial⟩)
+
+example : ∃ c, decodeRR exSvcb = .ok (exSvcbVal, { buf := exSvcb, off := 27, lim := 27, cost := c }) :=
+  decodeRR_complete exSvcbAt (by simp [exSvcb])
+
+/-! ## The boundary cases named by C04, evaluated through the public entry points -/
+
+/-- success with this value and this final cursor -/
+def okWith {α : Type} [BEq α] (r : Except DErr (α × D)) (v : α) (off : Nat) : Bool :=
+  match r with
+  | .ok (a, d) => a == v && d.off == off
+  | .error _ => false
+
+/-- failure with this error -/
+def errWith {α : Type} (r : Except DErr (α × D)) (e : DErr) : Bool :=
+  match r with
+  | .ok _ => false
+  | .error e' => e' == e
+
+theorem errWith_eq {α : Type} {r : Except DErr (α × D)} {e : DErr} (h : errWith r e = true) : r = .error e := by
+  cases r with
+  | ok _ => simp [errWith] at h
+  | error e' => simp only [errWith, beq_iff_eq] at h; rw [h]
+
+private def a61 : Bytes := List.replicate 61 97
+private def a62 : Bytes := List.replicate 62 97
+private def a63 : Bytes := List.replicate 63 97
+
+-- a 63-octet label is accepted, 64 is rejected
+example : okWith (decodeName (63 :: a63 ++ [0])) [a63] 65 = true := by decide +kernel
+example : errWith (decodeName (64 :: List.replicate 64 97 ++ [0])) .labelLength = true := by decide +kernel
+
+-- a 255-octet name (`Name.sz = 254`) is accepted, 256 octets are rejected
+private def n255 : Bytes := 63 :: a63 ++ (63 :: a63 ++ (63 :: a63 ++ (61 :: a61 ++ [0])))
+private def n256 : Bytes := 63 :: a63 ++ (63 :: a63 ++ (63 :: a63 ++ (62 :: a62 ++ [0])))
+example : n255.length = 255 ∧ Name.sz [a63, a63, a63, a61] = 254 ∧ n256.length = 256 := by decide +kernel
+example : okWith (decodeName n255) [a63, a63, a63, a61] 255 = true := by decide +kernel
+example : errWith (decodeName n256) .nameLength = true := by decide +kernel
+
+-- a pointer to the largest target offset 0x3FFF
+private def p3fff : Bytes := [0xFF, 0xFF] ++ List.replicate 0x3FFD 7 ++ [0]
+example : p3fff.length = 0x4000 ∧ ptrOff 0xFF 0xFF = 0x3FFF := by decide +kernel
+example : okWith (decodeName p3fff) [] 2 = true := by decide +kernel
+
+/-- `k` forward pointers (at 0, 2, …), each to the next one, then the root octet -/
+def ptrChain (k : Nat) : Bytes := (List.range k).flatMap (fun i => [0xC0, UInt8.ofNat (2 * (i + 1))]) ++ [0]
+
+-- 17 hops are accepted, 18 are rejected (`nameRec`'s `seen.length + 1 > 16`)
+example : okWith (decodeName (ptrChain 17)) [] 2 = true := by decide +kernel
+theorem ptrChain18_rejected : decodeName (ptrChain 18) = .error .maxRecursion :=
+  errWith_eq (by decide +kernel)
+
+private theorem chainStep {buf : Bytes} {off : Nat} {b : UInt8} {h e : Nat} (h1 : buf[off]? = some 0xC0)
+    (h2 : buf[off + 1]? = some b) (hr : NameAt buf false b.toNat [] h e) : NameAt buf false off [] (h + 1) (off + 2) :=
+  .ptr (a := 0xC0) (b := b) h1 (by decide) h2 (by simp) (by simpa [ptrOff] using hr)
+
+/-- … and the grammar agrees: the 17-hop chain IS a name reference (17 = `maxHops false`) … -/
+theorem ptrChain17_at : NameRefAt (ptrChain 17) false 0 [] 2 :=
+  ⟨17,
+    (chainStep (off := 0) (b := 2) (by decide) (by decide)
+      (chainStep (off := 2) (b := 4) (by decide) (by decide)
+      (chainStep (off := 4) (b := 6) (by decide) (by decide)
+      (chainStep (off := 6) (b := 8) (by decide) (by decide)
+      (chainStep (off := 8) (b := 10) (by decide) (by decide)
+      (chainStep (off := 10) (b := 12) (by decide) (by decide)
+      (chainStep (off := 12) (b := 14) (by decide) (by decide)
+      (chainStep (off := 14) (b := 16) (by decide) (by decide)
+      (chainStep (off := 16) (b := 18) (by decide) (by decide)
+      (chainStep (off := 18) (b := 20) (by decide) (by decide)
+      (chainStep (off := 20) (b := 22) (by decide) (by decide)
+      (chainStep (off := 22) (b := 24) (by decide) (by decide)
+      (chainStep (off := 24) (b := 26) (by decide) (by decide)
+      (chainStep (off := 26) (b := 28) (by decide) (by decide)
+      (chainStep (off := 28) (b := 30) (by decide) (by decide)
+      (chainStep (off := 30) (b := 32) (by decide) (by decide)
+      (chainStep (off := 32) (b := 34) (by decide) (by decide)
+      (.root (by decide))))))))))))))))))),
+    by decide, by simp, by simp⟩
+
+/-- … while the 18-hop chain is not (by completeness: the decoder rejects it) -/
+theorem ptrChain18_not_at : ¬ ∃ n e, NameRefAt (ptrChain 18) false 0 n e := by
+  rintro ⟨n, e, h⟩
+  obtain ⟨c, hc⟩ := decodeName_complete h (by decide +kernel)
+  rw [ptrChain18_rejected] at hc
+  cases hc
+
+/-- an OPT record (payload 4096) around the option octets `o` -/
+private def optRR (o : Bytes) : Bytes := [0, 0, 41, 0x10, 0, 0, 0, 0, 0] ++ beBytes 2 o.length ++ o
+private def optVal (opts : List EdnsOpt) : RR :=
+  { name := [], ty := 41, cls := 0, ttl := 0, rd := .opt 4096 0 0 false opts }
+
+-- cookies: 8 + 32 = 40 octets accepted, 41 rejected; 8 accepted, 9 rejected
+example : okWith (decodeRR (optRR ([0, 10, 0, 40] ++ ck8 ++ List.replicate 32 9)))
+    (optVal [.cookie ck8 (some (List.replicate 32 9))]) 55 = true := by decide +kernel
+example : errWith (decodeRR (optRR ([0, 10, 0, 41] ++ ck8 ++ List.replicate 33 9))) .cookieLength = true := by
+  decide +kernel
+example : okWith (decodeRR (optRR ([0, 10, 0, 8] ++ ck8))) (optVal [.cookie ck8 none]) 23 = true := by
+  decide +kernel
+example : errWith (decodeRR (optRR ([0, 10, 0, 9] ++ ck8 ++ [9]))) .cookieLength = true := by decide +kernel
+-- zero-length padding
+example : okWith (decodeRR (optRR [0, 12, 0, 0])) (optVal [.padding 0]) 15 = true := by decide +kernel
+-- a /0 ECS with no address octets
+example : okWith (decodeRR (optRR [0, 8, 0, 4, 0, 1, 0, 0])) (optVal [.ecs 1 0 0 [0, 0, 0, 0]]) 19 = true := by
+  decide +kernel
+-- an empty NULL RDATA
+example : okWith (decodeRR exNull) { name := [], ty := 10, cls := 1, ttl := 60, rd := .fields [.bytes []] } 11
+    = true := by decide +kernel
+-- empty SvcParam values (`mandatory` with no keys, `no-default-alpn`, an unregistered key)
+example : okWith (decodeRR [0, 0, 64, 0, 1, 0, 0, 0, 60, 0, 15, 0, 1, 0, 0, 7, 0, 0, 0, 2, 0, 0, 0, 0, 0, 0])
+    { name := [], ty := 64, cls := 1, ttl := 60, rd := .svcb 1 [] [.mandatory [], .noDefaultAlpn, .priv 7 []] } 26
+    = true := by decide +kernel
+-- a duplicated SvcParam key is rejected (so `keysSorted` + `Perm` is exactly the right side condition)
+example : errWith (decodeRR [0, 0, 64, 0, 1, 0, 0, 0, 60, 0, 11, 0, 1, 0, 0, 2, 0, 0, 0, 2, 0, 0])
+    (.svcbDuplicateKey 2) = true := by decide +kernel
+
+end Examples
 
 end Complete
